@@ -10,7 +10,7 @@ From Cocls Require Import Base BaseProofs StorageDefs StorageProofs.
 Local Open Scope Z_scope.
 
 Theorem c19_contract_free : forall pol l, contract_free pol = true -> contract_ok pol l = true.
-Proof. intros pol l H. exact (contract_free_ok pol H l (prm0 pol) core0 eq_refl). Qed.
+Proof. exact contract_free_ok0. Qed.
 Print Assumptions c19_contract_free.
 
 (* exclusive: two simultaneously live frames never sit in the same block *)
@@ -41,6 +41,36 @@ Theorem c19_fallback_freed_once : forall pol l, contract_ok pol l = true ->
   (c_up c = false -> h_live (hp c) = [] /\ h_allocs (hp c) = h_frees (hp c)).
 Proof. exact freed_once. Qed.
 Print Assumptions c19_fallback_freed_once.
+
+(* warm-up: after a frame of size s was served from the policy's block (c_max records it, c19_learned; it never decreases
+   while the storage lives, c19_learned_monotone), a frame of size <= s created while that block is free leaves the heap
+   untouched: 0 allocations (and 0 frees).  reusable / mtsafe (block not busy) / stack (second call) / placement / buffer *)
+Theorem c19_warm_no_alloc : forall pol l slot sz, contract_ok pol l = true ->
+  let c := final_u pol l in let p := final_p pol l in
+  wf_op c (OCreate slot sz) = true -> contract p c (OCreate slot sz) = true -> pol <> PDef ->
+  sz + p_x p <= c_max c -> (pol = PMts -> s_busy (st c) = false) ->
+  hp (fst (create p c slot sz)) = hp c.
+Proof. exact warm_no_alloc. Qed.
+Print Assumptions c19_warm_no_alloc.
+
+Theorem c19_learned : forall pol l slot sz,
+  let c := final_u pol l in let p := final_p pol l in
+  p_pol p = pol -> (pol = PMts -> s_busy (st c) = false) -> sz + p_x p <= c_max (fst (create p c slot sz)).
+Proof. exact learned. Qed.
+Print Assumptions c19_learned.
+
+Theorem c19_learned_monotone : forall p c o, c_up c = true -> c_max c <= c_max (fst (gstep p c o)).
+Proof. exact cmax_mono. Qed.
+Print Assumptions c19_learned_monotone.
+
+(* extra object / life cycle: per frame id the logged events are exactly alloc, ctor, promise (while live) followed by
+   promise-dtor, dtor, dealloc (once finished): constructed exactly once inside alloc before the coroutine object exists,
+   destroyed exactly once, after the coroutine object and before the memory is handed back *)
+Theorem c19_extra_object : forall pol l fid, contract_ok pol l = true ->
+  let c := final_u pol l in
+  evs_of fid (c_log c) = lifecycle (p_x (final_p pol l)) (c_nfid c) (frs c) fid.
+Proof. exact extra_object. Qed.
+Print Assumptions c19_extra_object.
 
 (* thread-safe variant, every interleaving *)
 Theorem c19_mt_exclusive : forall ops s i j fi fj, mt_reach ops s ->
@@ -87,3 +117,14 @@ Example c19_contract_needed :
   contract_ok PReu l = false /\
   exists f, fget (frs (final_u PReu l)) 0 = Some f /\ f_blk f = BHeap 0 /\ hmem 0 (h_live (hp (final_u PReu l))) = false.
 Proof. vm_compute. split; [reflexivity|]. eexists. repeat split; reflexivity. Qed.
+
+(* non-vacuity of the warm-up and life-cycle statements: frame 0 finished (6 events), frame 1 live (3 events), and a
+   third creation of the learned size is admissible and free *)
+Example c19_nonvacuous_warm :
+  let l := [OInit 24 0 0; OCreate 0 296; OFinish 0; OCreate 1 104] in
+  contract_ok PReu l = true /\ c_max (final_u PReu l) = 320 /\
+  evs_of 0 (c_log (final_u PReu l)) = [1; 2; 3; 6; 4; 5] /\ evs_of 1 (c_log (final_u PReu l)) = [1; 2; 3] /\
+  evs_of 2 (c_log (final_u PReu l)) = [] /\
+  let l2 := l ++ [OFinish 1] in
+  wf_op (final_u PReu l2) (OCreate 2 296) = true /\ contract (final_p PReu l2) (final_u PReu l2) (OCreate 2 296) = true.
+Proof. vm_compute. repeat split; reflexivity. Qed.
